@@ -32,4 +32,28 @@ func Pairs
   ensures[pairs] forall k :: 0 <= k && k < len(result) ==> result[k][0] == slice[k] && result[k][1] == slice[k+1]
   loop 0 invariant 0 <= i && i <= lim && len(pairs) == lim && lim == len(slice) - 1 && fresh(pairs)
   loop 0 invariant forall k :: 0 <= k && k < i ==> pairs[k][0] == slice[k] && pairs[k][1] == slice[k+1]
+
+func ChunkFunc
+  property C13
+  requires size >= 1
+  ensures[count]  loglen(callback) == cdiv(len(slice), size)
+  ensures[pieces] forall k :: 0 <= k && k < loglen(callback) ==> window(logarg(callback, 0, k), slice, k*size, min((k+1)*size, len(slice)))
+  loop 0 invariant 0 <= i && j == i*size && j <= rounded && rounded == div*size && div == len(slice)/size && i <= div
+  loop 0 invariant loglen(callback) == i
+  loop 0 invariant forall k :: 0 <= k && k < i ==> window(logarg(callback, 0, k), slice, k*size, (k+1)*size)
+
+func WindowedFunc
+  property C13
+  requires size >= 1
+  ensures[count]  loglen(callback) == ite(len(slice) < size, 0, len(slice) - size + 1)
+  ensures[pieces] forall k :: 0 <= k && k < loglen(callback) ==> window(logarg(callback, 0, k), slice, k, k+size)
+  loop 0 invariant 0 <= i && i <= lim && lim == len(slice) - size + 1 && loglen(callback) == i
+  loop 0 invariant forall k :: 0 <= k && k < i ==> window(logarg(callback, 0, k), slice, k, k+size)
+
+func PairsFunc
+  property C13
+  ensures[count] loglen(callback) == ite(len(slice) < 2, 0, len(slice) - 1)
+  ensures[pairs] forall k :: 0 <= k && k < loglen(callback) ==> logarg(callback, 0, k) == slice[k] && logarg(callback, 1, k) == slice[k+1]
+  loop 0 invariant 0 <= i && i <= lim && lim == len(slice) - 1 && loglen(callback) == i
+  loop 0 invariant forall k :: 0 <= k && k < i ==> logarg(callback, 0, k) == slice[k] && logarg(callback, 1, k) == slice[k+1]
 @*/
